@@ -304,10 +304,10 @@ def link(draw, blocks, label_pool, allow_replace=True, allow_atype_sel=True, pre
             for key in draw(st.lists(st.sampled_from(keys_all), min_size=1, max_size=2, unique=True)):
                 pat.append([key, {"atype": draw(st.sampled_from(TYPES))}])
             patterns.append(pat)
-    if allow_replace and draw(st.integers(0, 6)) == 0:
+    if allow_replace and draw(st.integers(0, 1 if atype_replace else 6)) == 0:
         key = draw(st.sampled_from(keys_all))
         atoms[key] = dict(atoms[key])
-        kind = draw(st.integers(0, 2))
+        kind = 1 if atype_replace and draw(st.integers(0, 3)) > 0 else draw(st.integers(0, 2))
         if kind == 0:
             atoms[key]["replace"] = {"atomname": None}       # the atom is removed
         elif kind == 1 and atype_replace:
@@ -427,10 +427,13 @@ def case(draw, with_links=True, max_res=8, mixed_nrexcl=False, routes=("json", "
                                    atype_replace=atype_replace)))
         if atype_replace:
             # selection by type is what makes a type replacement observable for later links
+            retyped = {model_split_key(at["key"])[1] for lnk in links for at in lnk["atoms"]
+                       if "atype" in at["attrs"].get("replace", {})}
             for lnk in links:
                 for at in lnk["atoms"]:
-                    if "atype" not in at["attrs"] and "replace" not in at["attrs"] and draw(st.integers(0, 4)) == 0:
-                        order, base = model_split_key(at["key"])
+                    order, base = model_split_key(at["key"])
+                    if "atype" not in at["attrs"] and "replace" not in at["attrs"] and \
+                            draw(st.integers(0, 1 if base in retyped else 4)) == 0:
                         cands = [a["type"] for b in blocks for a in b["atoms"] if a["name"] == base]
                         if cands:
                             at["attrs"] = dict(at["attrs"], atype=draw(st.sampled_from(cands)))
